@@ -291,6 +291,9 @@ CORPUS = ['unittests/amsthm/source.tex', 'unittests/sources/floats.tex', 'unitte
           'unittests/Packages/sources/babel.tex', 'unittests/Packages/sources/multibib.tex']
 
 
+MANUAL = 'Doc/plastex.tex'
+
+
 def corpus_source(rel):
     """A document of the repository's own test corpus (sources are data, not code under test)."""
     try:
@@ -568,6 +571,18 @@ def history_job(args, fs):
     for pkname, pksrc in sorted(LOCAL_PACKAGES.items()):
         with open(os.path.join('pk', pkname + '.py'), 'w') as f:
             f.write(pksrc)
+    for job in args['jobs']:
+        if job.get('copydir'):
+            # a multi-file document of the corpus: its \input files, class files and pictures (data, copied by the harness)
+            import shutil
+            for dirpath, dirnames, filenames in os.walk(job['copydir']):
+                dirnames.sort()
+                reld = os.path.relpath(dirpath, job['copydir'])
+                os.makedirs(reld, exist_ok=True)
+                for fn in sorted(filenames):
+                    dst = os.path.join(reld, fn)
+                    if not os.path.exists(dst):
+                        shutil.copyfile(os.path.join(dirpath, fn), dst)
     for j, job in enumerate(args['jobs']):
         SimClock.now = job['clock']
         os.chdir(root)
@@ -741,6 +756,25 @@ def enumerate_cases(base_seed, tier):
             out.append({'property': PID, 'seed': core.h64('C17-open', o, cut),
                         'swarm': {'scrub': False, 'base': 'minimal', 'exec_ref': False, 'hashseed': 1},
                         'ops': [dict(gjob(['textbf', o]), cut=cut), gjob(readers)]})
+    # the plasTeX manual (Doc/plastex.tex: 18 input files, ~100 output files) before and after other documents
+    def mjob(rel, withdir=False):
+        d = {'op': 'JOB', 'corpus': rel, 'cls': 'article', 'packages': [], 'blocks': [], 'cut': None,
+             'renderer': 'HTML5', 'split': 2, 'theme': 'default', 'dt': 60, 'extra': []}
+        if withdir:
+            d['withdir'] = True
+        return d
+    others = CORPUS if tier == 'thorough' else CORPUS[1:2]
+    for ib, b in enumerate(others):
+        for order in ((0, 1) if tier == 'thorough' else (0,)):
+            pair = [mjob(b), mjob(MANUAL, True)]
+            if order:
+                pair.reverse()
+            out.append({'property': PID, 'seed': core.h64('C17-manual', ib, order),
+                        'swarm': {'scrub': False, 'base': 'minimal', 'exec_ref': False, 'hashseed': 1}, 'ops': pair})
+    if tier == 'thorough':
+        out.append({'property': PID, 'seed': core.h64('C17-manual-twice'),
+                    'swarm': {'scrub': False, 'base': 'minimal', 'exec_ref': False, 'hashseed': 1},
+                    'ops': [mjob(MANUAL, True), mjob(MANUAL, True)]})
     for ia, a in enumerate(CORPUS):
         for ib, b in enumerate(CORPUS):
             def job(rel):
@@ -801,7 +835,8 @@ def _materialise(record):
         jobs.append({'name': 'j%d' % j, 'src': job_source(op), 'raw': bool(op.get('raw')), 'renderer': op['renderer'], 'split': op['split'],
                      'theme': op['theme'], 'clock': clock, 'blocks': op['blocks'], 'cut': op.get('cut'),
                      'extra': op.get('extra', []),
-                     'local': any(q in LOCAL_PACKAGES for b in op['blocks'] for q in NEEDS.get(b, []))})
+                     'local': any(q in LOCAL_PACKAGES for b in op['blocks'] for q in NEEDS.get(b, [])),
+                     'copydir': (os.path.join(core.REPO, os.path.dirname(op['corpus'])) if op.get('corpus') and op.get('withdir') else None)})
     return jobs
 
 
